@@ -703,6 +703,37 @@ def gen_case_(rng, kind):
         via, opts = "transfer", {"replace_parameter_values": True}
     elif kind == "sequence":
         steps = rng.sample(SIMPLIFY_STEPS, rng.randint(1, 3))
+        roots = [q for q in P if q["type"] == "Real" and not q.get("dims") and (q["attrs"].get("value") or {}).get("k") == "lit"]
+        if roots and rng.random() < 0.65:
+            # chain of dependent parameters d1 = e(d2), d2 = e(d3) .., last = e(root), declared in definition-before-use
+            # order, in use-before-definition order, or shuffled; attributes refer to the head (and the middle)
+            depth = rng.choice([2, 2, 3])
+            names = ["d%d" % (i + 1) for i in range(depth)]
+            chain_ps = []
+            for i, nm in enumerate(names):
+                src = names[i + 1] if i + 1 < depth else rng.choice(roots)["name"]
+                chain_ps.append({"name": nm, "cat": "param", "type": "Real", "dims": [],
+                                 "attrs": {"value": {"k": "exp", "e": g_aff_p(rng, [(src, None, "Real")], rng.choice([1, 2]), False)}}})
+            order = rng.choice(["use-first", "use-first", "def-first", "shuffled"])
+            if order == "def-first":
+                chain_ps.reverse()
+            elif order == "shuffled":
+                rng.shuffle(chain_ps)
+            P[:] = (chain_ps + P) if rng.random() < 0.5 else (P + chain_ps)
+            users = [v for v in V if v["type"] == "Real" and v["cat"] != "constant"]
+            if not users:
+                users = [{"name": "w", "cat": "alg", "type": "Real", "dims": [], "attrs": {}}]
+                V[:] = [v for v in V if v["name"] != "w"] + users
+            for nm in [names[0]] + ([names[1]] if rng.random() < 0.5 else []):
+                tgt = rng.choice(users)
+                d = {"k": "exp", "e": gen_expr(rng, [(nm, None, "Real")], False, rng.random() < 0.6)}
+                if tgt["dims"]:
+                    d["each"] = True
+                tgt["attrs"][rng.choice(["min", "max", "start", "nominal"])] = d
+            rest = [x for x in SIMPLIFY_STEPS if "replace_parameter_expressions" not in x]
+            steps = [{"replace_parameter_expressions": True}] + rng.sample(rest, rng.randint(0, 2))
+            if rng.random() < 0.3:
+                steps = [rng.choice(rest)] + steps[:2]
     elif kind == "multilinear":
         opts = {"expand_mx": True} if r < 0.25 else {}
     elif kind == "matrix2d":
@@ -1108,7 +1139,11 @@ def envs(case, res):
     out = []
     for pv in case["pvs_exact"]:
         env = {}
-        for p in case["params"]:
+        # dependent parameters may be declared BEFORE the parameters they refer to: iterate to a fixed point
+        todo = list(case["params"]) * (len(case["params"]) + 1)
+        for p in todo:
+            if (p["name"], 0) in env:
+                continue
             dims = p.get("dims") or []
             cnt = 1
             for d in dims:
